@@ -16,7 +16,7 @@ EXPLANATION = (
     'of this namespace, that entry), LocalInsert only under origin Local; (R4) unsubscribe retains exactly the senders that'
     ' are not the same channel and the per-subscriber delivery future, evaluated with awaits driven to completion, keeps a '
     'subscriber whose send of this event succeeded (a closed one may be dropped), the list being rebuilt from the previous '
-    'senders. (R5) the meaning of the policy the flag is computed by: DownloadPolicy::matches and FilterKind::matches evaluated (shared with C15.R1). NOT decided: order of delivery across subscribers under back-pressure.'
+    'senders. (R5) the meaning of the policy the flag is computed by: DownloadPolicy::matches and FilterKind::matches evaluated (shared with C15.R1). (R6) the store actor forwards InsertRemote / SyncProcessMessage / Subscribe / Unsubscribe one to one (the store-actor handler evaluated with the fields of the request as named tokens and gates / store / replica calls answered by an oracle, each step also failing in turn: the own fields of the request reach the core function in order on the addressed document, nothing is carried out after a failed step, the reply is the result of that function; the SyncHandle method evaluated: one request of its own kind, addressed to its namespace argument, each field one of its own parameters, the reply of the actor returned); insert_remote_entry builds origin Sync { from, remote_content_status } from its own arguments. NOT decided: order of delivery across subscribers under back-pressure.'
 )
 ASSUMPTIONS = ["async_channel delivers a sent event exactly once to its receiver", "generic callbacks bound to the closures of the unique production call"]
 
@@ -293,9 +293,19 @@ def r5(ctx):
     ctx.floor("C12.R5", 3)
 
 
+def r6(ctx):
+    """the path from the asynchronous handle to the replica: the providing peer, its content status and the subscriber
+    channel of a request are the ones the event / the subscription is made of"""
+    from . import actorfw
+    actorfw.claim(ctx, "C12.R6", handlers=("InsertRemote", "SyncProcessMessage", "Subscribe", "Unsubscribe"), clients=("insert_remote", "sync_process_message", "subscribe", "unsubscribe"))
+    actorfw.check_remote_origin(ctx, "C12.R6")
+    ctx.floor("C12.R6", 15)
+
+
 def run(ctx):
     ctx.run_rule("C12.R1", r1)
     ctx.run_rule("C12.R2", r2)
     ctx.run_rule("C12.R3", r3)
     ctx.run_rule("C12.R4", r4)
     ctx.run_rule("C12.R5", r5)
+    ctx.run_rule("C12.R6", r6)
